@@ -284,6 +284,31 @@ func (x *entryWorld) entryJSON(s sym, pos int) map[string]any {
 		"statusListIndex": strconv.Itoa(i), "statusListCredential": l.url}
 }
 
+// credentialJWT builds the same credential in the JWT format (vc claim carries credentialStatus exactly as given).
+func (x *entryWorld) credentialJWT(iss did.DID, status any) vc.VerifiableCredential {
+	x.ser++
+	now := vtime.Now()
+	vcMap := map[string]any{
+		"@context":          []any{vc.VCContextV1URI().String(), testContext.String(), revocation.StatusList2021ContextURI.String()},
+		"type":              []any{"VerifiableCredential", humanType.String()},
+		"credentialSubject": map[string]any{"id": holder, "human": map[string]any{"eyeColour": "blue"}},
+	}
+	if status != nil {
+		vcMap["credentialStatus"] = status
+	}
+	claims := map[string]any{"nbf": now.Unix(), "iss": iss.String(), "sub": holder, "vc": vcMap,
+		"jti": fmt.Sprintf("%s#7c7ad0c4-1d9c-4b8e-9d0a-%012d", iss.String(), x.ser)}
+	tok, err := x.w.I.ks.SignJWT(x.w.ctx, claims, map[string]any{"typ": "JWT"}, kidOf(iss))
+	if err != nil {
+		x.t.Fatalf("harness: signing a JWT credential: %v", err)
+	}
+	cred, err := vc.ParseVerifiableCredential(tok)
+	if err != nil {
+		x.t.Fatalf("harness: %v", err)
+	}
+	return *cred
+}
+
 // credential builds and signs (JSON-LD proof of the issuer) a credential whose credentialStatus member is exactly `status`.
 func (x *entryWorld) credential(iss did.DID, status any) vc.VerifiableCredential {
 	x.ser++
@@ -366,7 +391,7 @@ func (x *entryWorld) present(format string, creds ...vc.VerifiableCredential) vc
 	case "ldp_vp":
 		var carried []any
 		for _, c := range creds {
-			var m map[string]any
+			var m any // a JSON-LD credential is an object, a JWT credential a string
 			b, _ := json.Marshal(c)
 			_ = json.Unmarshal(b, &m)
 			carried = append(carried, m)
@@ -404,10 +429,11 @@ func (x *entryWorld) verifyVP(vp vc.VerifiablePresentation) (string, error) {
 // ------------------------------------------------------------------ family entries
 
 type entryCredential struct {
-	key   string
-	syms  []sym
-	shape string
-	cred  vc.VerifiableCredential
+	key    string
+	syms   []sym
+	shape  string
+	format string // ldp_vc | jwt_vc
+	cred   vc.VerifiableCredential
 }
 
 func webAlphabet() (full, small []sym) {
@@ -441,8 +467,13 @@ func (x *entryWorld) familyEntries() {
 		small = append(append([]sym{}, full[:16]...), sym{"SL", "suspension", "S", true}, sym{"PLAIN", "", "", false})
 	}
 	var seqs [][]sym
-	var shapes []string
-	add := func(shape string, ss ...sym) { seqs = append(seqs, ss); shapes = append(shapes, shape) }
+	var shapes, formats []string
+	add := func(shape string, ss ...sym) {
+		seqs, shapes, formats = append(seqs, ss), append(shapes, shape), append(formats, "ldp_vc")
+		if len(ss) <= 2 { // the same credential in the JWT format
+			seqs, shapes, formats = append(seqs, ss), append(shapes, shape), append(formats, "jwt_vc")
+		}
+	}
 	extra := []sym{{"SL", "suspension", "S", true}, {"SL", "suspension", "S", false}, {"PLAIN", "", "", false}}
 	k1 := append(append([]sym{}, full...), extra...)
 	for _, s := range k1 {
@@ -467,7 +498,7 @@ func (x *entryWorld) familyEntries() {
 
 	var mineCreds []*entryCredential
 	for i, ss := range seqs {
-		key := fmt.Sprintf("%s|%s", shapes[i], symsString(ss))
+		key := fmt.Sprintf("%s|%s|%s", formats[i], shapes[i], symsString(ss))
 		if !x.mine("entries", key) {
 			continue
 		}
@@ -480,7 +511,13 @@ func (x *entryWorld) familyEntries() {
 		if shapes[i] == "object" {
 			status = arr[0]
 		}
-		mineCreds = append(mineCreds, &entryCredential{key: key, syms: ss, shape: shapes[i], cred: x.credential(web1, status)})
+		c := &entryCredential{key: key, syms: ss, shape: shapes[i], format: formats[i]}
+		if formats[i] == "jwt_vc" {
+			c.cred = x.credentialJWT(web1, status)
+		} else {
+			c.cred = x.credential(web1, status)
+		}
+		mineCreds = append(mineCreds, c)
 	}
 	// identical duplicates of one entry (the same slot twice / three times)
 	for _, n := range []int{2, 3} {
@@ -493,13 +530,14 @@ func (x *entryWorld) familyEntries() {
 			}
 			key := fmt.Sprintf("duplicate|%s", symsString(ss))
 			if x.mine("entries", key) {
-				mineCreds = append(mineCreds, &entryCredential{key: key, syms: ss, shape: "array", cred: x.credential(web1, arr)})
+				mineCreds = append(mineCreds, &entryCredential{key: key, syms: ss, shape: "array", format: "ldp_vc", cred: x.credential(web1, arr)})
 			}
 		}
 	}
 
 	// phase 1: nothing is revoked yet. Every credential must verify on both nodes (vacuity guard of the reference:
 	// what is refused later is refused BECAUSE of the issuer's revocation).
+	notOK := 0
 	for _, c := range mineCreds {
 		for _, n := range []*node{w.V, w.I} {
 			if v, err := x.product(n, c.cred); v != "ok" {
@@ -508,9 +546,14 @@ func (x *entryWorld) familyEntries() {
 						fmt.Sprintf("credential with status entries [%s] is reported revoked on node %s although no issuer has revoked anything yet", symsString(c.syms), n.name))
 					continue
 				}
-				x.t.Fatalf("harness: credential with status entries [%s] (nothing revoked) does not verify on node %s: %v", symsString(c.syms), n.name, err)
+				// converse of the statement: a vacuity guard, never a verdict
+				notOK++
+				r.Observation("unrevoked-credential-not-verifiable", fmt.Sprintf("[%s] %s on node %s before any revocation: %v", symsString(c.syms), c.format, n.name, err))
 			}
 		}
+	}
+	if notOK*4 > len(mineCreds) {
+		x.t.Fatalf("harness: %d of %d credentials do not verify before anything is revoked: the sweep would be vacuous", notOK, len(mineCreds))
 	}
 	x.revokeAll()
 	// phase 2
@@ -528,7 +571,7 @@ func (x *entryWorld) familyEntries() {
 			v, _ := x.product(n, c.cred)
 			r.Outcome("one refresh period later, demanded=true: " + v)
 			if v == "ok" {
-				x.violation("entries", c.key, "revocation-not-permanent", fmt.Sprintf("entries|verify-node-%s|entries=%d|deciding-position=%d", n.name, len(c.syms), first),
+				x.violation("entries", c.key, "revocation-not-permanent", fmt.Sprintf("entries|verify-node-%s|%s|entries=%d|deciding-position=%d", n.name, c.format, len(c.syms), first),
 					fmt.Sprintf("the credential with status entries [%s] had to be refused 16 minutes ago (entry %d is revoked) and verifies now on node %s", symsString(c.syms), first, n.name))
 			}
 		}
@@ -543,7 +586,7 @@ func (x *entryWorld) judgeCredential(family string, c *entryCredential) {
 	x.cases++
 	r.Eval(family + "|" + c.key)
 	class := func(path string) string {
-		return fmt.Sprintf("%s|%s|entries=%d|deciding-position=%d", family, path, len(c.syms), first)
+		return fmt.Sprintf("%s|%s|%s|entries=%d|deciding-position=%d", family, path, c.format, len(c.syms), first)
 	}
 	type res struct {
 		path    string
